@@ -10,7 +10,7 @@ from .e2e import generate_client
 SCHEMA = """
 enum Color { RED GREEN }
 input Inner { n: Int = 7 tag: String }
-input Filter { color: Color inner: Inner ids: [ID!] maybe: [Int] className: String }
+input Filter { color: Color inner: Inner ids: [ID!] maybe: [Int] className: String modelDump: String modelFields: Int copy: Int }
 type Query { q(a: Int, b: [Int]!, c: [Int!], m: [[Int]], f: Filter, fs: [Filter], query: String, data: Int, _query: String, className: String): Int }
 """
 QUERIES = """
@@ -77,6 +77,8 @@ def run_cases():
              {"f": {"color": "RED", "inner": {"tag": "t", "n": 7}}})
         case("list-of-inputs-with-none", "with_input", dict(fs=[None, it.Filter(ids=["1"])]), {"fs": [None, {"ids": ["1"]}]})
         case("keyword-field-name-travels-by-graphql-name", "with_input", dict(f=it.Filter(class_name="x")), {"f": {"className": "x"}})
+        case("fields-named-like-BaseModel-attributes-travel-by-graphql-name", "with_input",
+             dict(f=it.Filter(**{"modelDump": "d", "modelFields": 2, "copy": 3})), {"f": {"modelDump": "d", "modelFields": 2, "copy": 3}})
         case("argument-named-like-a-method-local", "clash", dict(query="needle", data=3), {"query": "needle", "data": 3})
         case("camel-case-variable", "keyword", dict(class_name="c"), {"className": "c"})
         case("variable-that-becomes-a-method-local-after-snake-casing", "capital", dict(query="needle", data=4), {"Query": "needle", "DATA": 4})
@@ -225,6 +227,7 @@ QUERIES_LOCALS = """
 query Clash($query: String, $variables: String, $data: String, $response: String, $operation_name: String) {
   q(query: $query, variables: $variables, data: $data, response: $response, operation_name: $operation_name) }
 subscription Sub($query: String, $variables: String, $data: String) { s(query: $query, variables: $variables, data: $data) }
+subscription NoVars { s }
 """
 
 
@@ -291,6 +294,29 @@ def bounded_method_locals(tier, seed):
                     bad.append(f"raises-{type(e).__name__}: {str(e)[:100]}")
                 if bad:
                     fails.append(dict(inputs=dict(scenario="async-subscription"), failed=bad, outcome=[v for k, v in ws.log][:3]))
+                cases += 1
+                bad = []
+                ws2 = F.NativeWS([json.dumps({"type": "connection_ack"}), json.dumps({"type": "next", "payload": {"data": {"s": "p2"}}}), json.dumps({"type": "complete"})])
+
+                async def drive2():
+                    items = []
+                    client = mod.Client(url="http://x/graphql", ws_url="ws://x/graphql")
+                    with mock.patch.object(base, "ws_connect", lambda *a, **k: ws2):
+                        async for item in client.no_vars():
+                            items.append(item)
+                    return items
+                try:
+                    items = asyncio.run(drive2())
+                    subs = [f for f in (json.loads(v) for k, v in ws2.log if k == "ws_send") if f.get("type") == "subscribe"]
+                    if len(subs) != 1 or "subscription NoVars" not in subs[0]["payload"].get("query", "") or subs[0]["payload"].get("operationName") != "NoVars" \
+                            or subs[0]["payload"].get("variables") not in (None, {}):
+                        bad.append("subscribe-without-variables-carries-document-and-operationName")
+                    if [getattr(i, "s", None) for i in items] != ["p2"]:
+                        bad.append("yields-the-validated-data-of-each-next-frame")
+                except Exception as e:      # noqa
+                    bad.append(f"raises-{type(e).__name__}: {str(e)[:100]}")
+                if bad:
+                    fails.append(dict(inputs=dict(scenario="async-subscription-without-variables"), failed=bad, outcome=[v for k, v in ws2.log][:3]))
         except Exception as e:      # noqa
             cases += 1
             fails.append(dict(inputs=dict(scenario=f"generation-async={async_}"), failed=["generation"], outcome=f"{type(e).__name__}: {str(e)[:200]}"))
